@@ -58,6 +58,9 @@ pub mod token;
 pub mod tokenizer;
 mod utils;
 
+#[cfg(feature = "verif")]
+pub mod verif;
+
 #[cfg(feature = "train")]
 #[cfg_attr(docsrs, doc(cfg(feature = "train")))]
 pub mod mecab;
